@@ -165,6 +165,9 @@ struct View {
 
 struct Ctx {
   std::vector<View> views;
+  std::vector<View> stale_writers;  // writable handles of caller memory that were bypassed by a write through another handle: they are not
+                                    // checked any more (their cached state is legitimately stale) but may still WRITE - op "stalew"
+  bool stale_write = false;
   std::vector<std::shared_ptr<Store>> memstores;
   Cfg base; uint64_t base_nbits = 64;
   bool disc = false;
@@ -260,7 +263,12 @@ void drop_bypassed(Ctx& c, size_t vi) {
   std::vector<View> keep;
   bool dropped = false;
   for (size_t i = 0; i < c.views.size(); ++i) {
-    if (i != vi && c.views[i].s.get() == s) { dropped = true; continue; }
+    if (i != vi && c.views[i].s.get() == s) {
+      dropped = true;
+      // a handle that is in the dirty state (it did a plain update) stays usable as a writer
+      if (!c.views[i].ro && c.views[i].dirty_m && c.views[i].sus == 0 && c.stale_writers.size() < 3) c.stale_writers.push_back(std::move(c.views[i]));
+      continue;
+    }
     keep.push_back(std::move(c.views[i]));
   }
   c.views = std::move(keep);
@@ -565,6 +573,29 @@ void op_insert(Ctx& c, const Op& op, bool qau) {
   drop_bypassed(c, vi);
 }
 
+// plain updates through a bypassed (stale but still dirty) writable handle of caller memory: the items must be visible to every view
+// taken of that memory later (wrapmem). Every checked view of the same memory is bypassed by this write in turn.
+void op_stale_write(Ctx& c, const Op& op) {
+  if (c.stale_writers.empty()) return;
+  View& w = c.stale_writers[op.uarg(0) % c.stale_writers.size()];
+  Store& s = *w.s;
+  const uint64_t n = 1 + op.uarg(1) % 6;
+  for (uint64_t i = 0; i < n; ++i) {
+    Item it{vf::T_I64, vf::mix64(0xC15F + c.fresh++) | 4096};
+    std::string b; if (!canon(it, b)) continue;
+    std::vector<uint64_t> ix; indices(s.cfg, b, ix);
+    for (uint64_t k : ix) s.bits.set(k);
+    if (s.must.size() < MAX_MUST) s.must.push_back(it);
+    lib_update(*w.f, it);
+  }
+  s.mem_dirty = true;
+  std::vector<View> keep;
+  for (auto& v : c.views) { if (v.s.get() == &s) continue; keep.push_back(std::move(v)); }
+  c.views = std::move(keep);
+  c.stale_write = true;
+  vf::label("write-through-a-bypassed-handle");
+}
+
 void op_bulk(Ctx& c, const Op& op) {
   size_t vi = pick_writable(c, op.uarg(0));
   if (vi == static_cast<size_t>(-1)) return;
@@ -752,6 +783,7 @@ void prop(const Case& cs) {
     else if (n == "invert") op_invert(c, op);
     else if (n == "reset") op_reset(c, op);
     else if (n == "copy") op_copy(c, op);
+    else if (n == "stalew") op_stale_write(c, op);
     else if (n == "bits") op_bits(c, op);
     else if (n == "ser") op_ser(c, pick_view(c, op.uarg(0)), static_cast<int>(op.uarg(1) % 4), static_cast<unsigned>(op.uarg(2) % 20));
     else if (n == "wrapmem") { if (c.memstores.empty()) continue; view_from_memory(c, c.memstores[op.uarg(0) % c.memstores.size()], static_cast<int>(op.uarg(1) % 3)); }
@@ -884,6 +916,7 @@ rc::Gen<Case> gen_main() {
       {1, op2("invert", vsel, range(0, 63))},
       {1, op1("reset", vsel)},
       {2, op2("copy", vsel, range(0, 63))},
+      {2, op2("stalew", range(0, 2), range(0, 5))},
       {2, op1("bits", vsel)},
       {1, op1("drop", vsel)},
   });
